@@ -37,6 +37,7 @@ type deferred struct {
 }
 
 type frame struct {
+	curPos           token.Pos
 	i                *interpreter
 	g                *gor
 	caller           *frame
@@ -55,6 +56,7 @@ type frame struct {
 
 // interpreter is the per-path state.
 type interpreter struct {
+	panicOrigin string // where the first target panic of this path was raised (diagnostics)
 	eng     *Engine
 	prog    *ssa.Program
 	globals map[*ssa.Global]*value
@@ -211,6 +213,9 @@ func nilDeref() targetPanic {
 // visitInstr interprets a single ssa.Instruction.
 func visitInstr(fr *frame, instr ssa.Instruction) continuation {
 	fr.step()
+	if p := instr.Pos(); p != token.NoPos {
+		fr.curPos = p
+	}
 	switch instr := instr.(type) {
 	case *ssa.DebugRef:
 		// no-op
@@ -908,6 +913,9 @@ func runFrame(fr *frame) {
 		default:
 			panic(&pathEnd{kind: endInternal, msg: fmt.Sprintf("executor error in %s: %v", fr.fn, r)})
 		}
+		if fr.i.panicOrigin == "" {
+			fr.i.panicOrigin = fmt.Sprintf("%s%s", fr.fn, fr.i.loc(fr.curPos))
+		}
 		fr.panicking = true
 		fr.panic = r
 		fr.runDefers()
@@ -1016,6 +1024,12 @@ func callBuiltin(caller *frame, callpos token.Pos, fn *ssa.Builtin, args []value
 			nc := 2*cap(arg0) + len(src)
 			ns := make([]value, len(arg0), nc)
 			copy(ns, arg0)
+			// spare capacity holds zero values (target code may reslice up to cap)
+			tE := fn.Type().(*types.Signature).Params().At(0).Type().Underlying().(*types.Slice).Elem()
+			full := ns[:nc]
+			for k := len(arg0); k < nc; k++ {
+				full[k] = zero(tE)
+			}
 			arg0 = ns
 		}
 		for _, e := range src {
